@@ -34,6 +34,7 @@ def candidate_edits(obj, case, rng):
                 if isinstance(l, str) and l != obj.str_default: edits.append((f, 'replace', l, 'renamed_%s' % l))
         if order.contains(obj.str_nan) and order.get_group(obj.str_nan) == obj.str_nan and leaders:
             edits.append((f, 'group', float('nan'), rng.choice(leaders)))
+            if f not in obj.quantitative_features: edits.append((f, 'replace', float('nan'), rng.choice([l for l in leaders if isinstance(l, str)] or leaders)))     # the other way of attaching the missing values to a modality
     return edits
 
 
@@ -61,6 +62,7 @@ def one(arg):
         d_eff = obj.str_nan if isnan(d) else d
         rows_d = [i for i, v in enumerate(case['X'][ob.raw_feature_of(obj, f)].tolist()) if ob.group_of(obj, f, v) == order0.get_group(d_eff)]
         rows_k = [i for i, v in enumerate(case['X'][ob.raw_feature_of(obj, f)].tolist()) if ob.group_of(obj, f, v) == order0.get_group(k)] if mode == 'group' else []
+        rows_k_replace = [i for i, v in enumerate(case['X'][ob.raw_feature_of(obj, f)].tolist()) if (not isnan(v)) and ob.group_of(obj, f, v) == order0.get_group(k)] if (mode == 'replace' and isnan(d)) else []
         try:
             obj.update_discretizer(f, mode, d, k)
         except Exception as e:
@@ -72,7 +74,8 @@ def one(arg):
             rec('C17:transform#post.accepts_training_data_after_edit', False, 'transform after edit raised %s: %s' % (type(e).__name__, str(e)[:150])); break
         # grouping of the rows of feature f: before-partition with the two groups merged (group) / unchanged (replace); other features unchanged
         pb, pa = partition(before[f]), partition(after[f])
-        if mode == 'group':
+        if mode == 'group' or isnan(d):
+            if mode == 'replace': rows_k = [i for i, v in enumerate(case['X'][ob.raw_feature_of(obj, f)].tolist()) if ob.group_of(obj, f, v) == order0.get_group(k)] if False else rows_k_replace
             merged = sorted(set(rows_d) | set(rows_k))
             exp = sorted([g for g in pb if not (set(g) & set(merged))] + ([merged] if merged else []))
             # rows that were missing and stay missing (dropna=False, edit not about NaN) are their own class in both
